@@ -25,6 +25,7 @@ struct verif_ghost {
     int hit;               /* the linear walk visited ghost offset __verif_gpos */
     uint32_t walk_end;     /* offset at which the walk stands */
     int fnv;               /* verify_function entered for ghost function __verif_gf */
+    int iok;               /* at the accepting return of verify_function: !hit || INSTR_OK(ghost offset) */
     /* crc loop coverage (C12.crc.cover) */
     uint32_t seen, last;
     /* release bookkeeping (C14) */
